@@ -491,7 +491,10 @@ fn multi_file_family(rep: &mut Report) {
             let c = Case { triggers: vec![MENU[*t]], nesting: vec![], position: POS[*p], field_default: false, field_dashed: false, lang: j.lang, field_override: None };
             mappings.extend(cfg_of(&c).type_mappings);
             let tag = ["A", "B", "C"][i];
-            let src = render_file(&program(&c)).replace("Outer", &format!("Outer{tag}")).replace("User", &format!("User{tag}")).replace("Holder", &format!("Holder{tag}"));
+            // only what the trigger needs: a crate without generics / helpers must really be without them
+            let mut file = program(&c);
+            file.items.retain(|it| it.name.starts_with("Outer") || it.name.starts_with("OUTER") || (it.name == "User" && MENU[*t] == "user") || (it.name == "Holder" && POS[*p] == "generic-arg"));
+            let src = render_file(&file).replace("Outer", &format!("Outer{tag}")).replace("User", &format!("User{tag}")).replace("Holder", &format!("Holder{tag}"));
             let rel = format!("ws/{}/src/lib.rs", CRATES[i]);
             sc.write(&rel, src.as_bytes());
             sources.push((rel, src));
